@@ -3,6 +3,8 @@ keeps name, docstring and __wrapped__: real haiway.helpers vs `hwmodel wrap` (Ha
 
 Case (one line of key=value tokens):
  deco=  asyn | asyn_call | asyn_ex | asyn_loop      @asynchronous, @asynchronous(), (executor=pool), (loop=loop, executor=pool)
+        m2:<outer>:<inner>                           two decorators on top of each other (metadata only): name, docstring and
+                                                     the chain outer.__wrapped__ is inner wrapper, inner.__wrapped__ is the function
         wasync_s | wasync_a                          wrap_async of a sync / of an async function
         traced_s | traced_a                          traced sync / async function
         m_cache_s m_cache_a m_cache_p m_retry_s m_retry_a m_retry_p m_throttle m_throttle_p m_timeout   (metadata only)
@@ -15,7 +17,8 @@ Case (one line of key=value tokens):
         values: i<k> int, s<k> str, n None, t tuple, o an object
  out=   r:<value> | e:V | e:K | e:C | e:B     (ValueError, KeyError, custom Exception, custom BaseException)
         values also: fv / fe a finished asyncio Future holding a value / an exception, co a coroutine object – awaitables
-        returned *as values* (job handles); e:A the function raises asyncio.CancelledError itself
+        returned *as values* (job handles); xv / xb an Exception / BaseException *instance returned as a value*;
+        e:A the function raises asyncio.CancelledError itself
         e:T | e:X | e:I   TimeoutError, concurrent.futures.CancelledError / InvalidStateError: the three classes that
                           asyncio re-creates when it copies an executor future into a loop future
  leak=  v > 0: the function enters ctx.updated(A(v)) and never leaves it      rec= k > 0: the function records M(k)
@@ -77,6 +80,14 @@ ASSUMPTIONS = ["the function does not raise StopIteration (asyncio cannot carry 
 DECOS_CALL = ["asyn", "asyn_call", "asyn_ex", "asyn_loop", "wasync_s", "wasync_a", "traced_s", "traced_a"]
 DECOS_META = ["m_cache_s", "m_cache_a", "m_cache_p", "m_retry_s", "m_retry_a", "m_retry_p", "m_throttle", "m_throttle_p",
               "m_timeout"]
+# two decorators on top of each other, `m2:<outer>:<inner>` (async function): metadata of the outer object and the chain of
+# `__wrapped__` references (outer -> inner wrapper -> function)
+_STACKABLE = ["m_cache_a", "m_retry_a", "m_throttle", "m_timeout", "traced_a", "wasync_a"]
+# (`throttle` asserts that it is given a coroutine *function*: it refuses the class-based wrapper objects of cache / throttle /
+#  timeout at decoration time – nothing to observe for those three combinations)
+DECOS_STACK = [f"m2:{o}:{i}" for o in _STACKABLE for i in _STACKABLE
+               if not (o == "m_throttle" and i in ("m_cache_a", "m_throttle", "m_timeout"))]
+DECOS_META = DECOS_META + DECOS_STACK
 SIGS = ["a, b=2, *args, k=0, **kw", "", "a, /, b, *, c", "*args, **kwargs", "a, b=5, c=None"]
 SIG_NAMES = [["a", "b", "args", "k", "kw"], [], ["a", "b", "c"], ["args", "kwargs"], ["a", "b", "c"]]
 
@@ -173,6 +184,10 @@ class Values:
                 o.exception()  # retrieved: no "never retrieved" noise
         elif tok == "co":
             o = _job()
+        elif tok == "xv":
+            o = ValueError("returned, not raised")      # exception instances used as data (outcome of a job, a validator)
+        elif tok == "xb":
+            o = BaseBoom("returned, not raised")
         else:
             o = object()
         self.keep.append(o)
@@ -344,6 +359,10 @@ class Env:
 def decorate(env: Env, deco: str, fn):
     from haiway import asynchronous, cache, retry, throttle, timeout, traced, wrap_async
 
+    if deco.startswith("m2:"):
+        _m2, outer, inner = deco.split(":")
+        env.inner_obj = decorate(env, inner, fn)
+        return decorate(env, outer, env.inner_obj)
     if deco == "asyn":
         return asynchronous(fn)
     if deco == "asyn_call":
@@ -373,7 +392,7 @@ def decorate(env: Env, deco: str, fn):
     raise ValueError(deco)
 
 
-IS_ASYNC = {"wasync_a", "traced_a", "m_cache_a", "m_retry_a", "m_throttle", "m_throttle_p", "m_timeout"}
+IS_ASYNC = {"wasync_a", "traced_a", "m_cache_a", "m_retry_a", "m_throttle", "m_throttle_p", "m_timeout", *DECOS_STACK}
 AWAITED = {"asyn", "asyn_call", "asyn_ex", "asyn_loop", "wasync_s", "wasync_a", "traced_a"}
 
 
@@ -475,6 +494,12 @@ def run_real(case: str) -> str:
         env = Env(d, loop, cap)
         orig, target, receiver = build(env, d)
         meta = meta_bits(orig, target)
+        if d["deco"] in DECOS_STACK:
+            inner = getattr(env, "inner_obj", None)
+            # (wrap_async of a coroutine function is the function itself: a one-layer chain)
+            chain = (target is inner or getattr(target, "__wrapped__", None) is inner) and \
+                (inner is orig or getattr(inner, "__wrapped__", None) is orig)
+            return f"-|-|-|-|-|-|{meta[:2]}{int(chain)}|-"
         if d["deco"] in DECOS_META:
             if d["form"] != "fn":
                 meta += meta_bits(orig, type(receiver).__dict__["m"])
@@ -500,8 +525,10 @@ def run_real(case: str) -> str:
                     return "-" if x is MISSING else show(x)
 
                 at = f"{part(a.args)};{part(a.kwargs)}" if a is not None else "-"
-                rt = ("e:" + class_name(type(r.result)) if isinstance(r.result, BaseException) else "r:" + show(r.result)) \
-                    if r is not None else "-"
+                # an exception instance the function *returned* is a value of the case (known by identity), not an outcome
+                rt = ("e:" + class_name(type(r.result))
+                      if isinstance(r.result, BaseException) and id(r.result) not in env.values.objs
+                      else "r:" + show(r.result)) if r is not None else "-"
                 mt = ".".join(map(str, m.ks)) if m is not None else ""
                 cells["root"] = f"A={at} R={rt} M={mt}"
             except BaseException as e:  # noqa: BLE001
@@ -734,6 +761,8 @@ def monitor(case: str, out: str) -> list[str]:
     o_out, o_bind, o_seen, o_after, o_where, o_rec, o_meta, o_recv = parts
     deco = d["deco"]
     fails = []
+    if deco in DECOS_STACK:
+        return ["wrap.metadata.stacked"] if set(o_meta) != {"1"} else []
     family = deco.split("_")[1] if deco.startswith("m_") else deco.split("_")[0]
     if set(o_meta) != {"1"}:
         fails.append("wrap.metadata." + {"asyn": "asynchronous", "wasync": "wrap_async"}.get(family, family))
@@ -798,7 +827,7 @@ def monitor(case: str, out: str) -> list[str]:
 # generation
 
 VALS = ["i1", "i2", "i7", "s3", "n", "t", "o"]
-OUTS = ["r:i1", "r:s4", "r:n", "r:t", "r:o", "r:fv", "r:fe", "r:co", "e:V", "e:K", "e:C", "e:B", "e:T", "e:X", "e:I", "e:A"]
+OUTS = ["r:i1", "r:s4", "r:n", "r:t", "r:o", "r:fv", "r:fe", "r:co", "r:xv", "r:xb", "e:V", "e:K", "e:C", "e:B", "e:T", "e:X", "e:I", "e:A"]
 
 
 def gen_args(rng, sig: int, fit: bool):
@@ -852,8 +881,11 @@ def gen_args(rng, sig: int, fit: bool):
 
 
 def gen_case(rng, deco=None) -> str:
-    deco = deco or rng.choice(DECOS_CALL * 4 + DECOS_META)
+    deco = deco or (rng.choice(DECOS_STACK) if rng.random() < 0.04
+                    else rng.choice(DECOS_CALL * 4 + [m for m in DECOS_META if m not in DECOS_STACK]))
     form = rng.choice(["fn", "fn", "meth", "meth", "cls"])
+    if deco in DECOS_STACK:
+        return f"deco={deco} form=fn doc={rng.choice('110')}"
     if deco in DECOS_META:
         if deco.split("_")[1] not in ("cache",) and form == "cls":
             form = "meth"
@@ -933,7 +965,8 @@ def corpus():
         f"deco=traced_s form=meth {base} spawn=1",
         f"deco=wasync_a form=fn {base} spawn=1",
         "deco=wasync_s form=fn root=1 site=a1.w2.a3.u4 sig=1 pos=- kw=- out=e:V spawn=1",
-    ] + [f"deco={m} form={f} doc={dc}" for m in DECOS_META for f in ("fn", "meth") for dc in "10"]
+    ] + [f"deco={m} form={f} doc={dc}" for m in DECOS_META if m not in DECOS_STACK for f in ("fn", "meth") for dc in "10"] \
+      + [f"deco={m} form=fn doc={dc}" for m in DECOS_STACK for dc in "10"]
 
 
 def nontrivial(case: str, out: str) -> bool:
